@@ -94,7 +94,14 @@ func ruleC11a(c *Ctx) {
 			case strings.HasPrefix(fn.Name(), "init"):
 				c.ok(name, construct+" in package initialisation", p.ipos(a.Instr), "runs before any request")
 			case lock != nil && li.heldAt(a.Instr)[lock] == lockW:
-				ok := fn.Name() == "Add" || fn.Name() == "Remove" || fn.Name() == "addHandler"
+				top := topFunc(fn) // a function literal inside a registration operation belongs to it
+				ok := top.Name() == "Add" || top.Name() == "Remove" || top.Name() == "addHandler"
+				// any operation that itself registers on the container's mux is a registration operation (Handle)
+				for _, reg := range muxRegistrations(p) {
+					if (reg.Fn == fn || reg.Fn == top) && recvTypeName(top) == "Container" {
+						ok = true
+					}
+				}
 				c.check(ok, name, construct+" by a registration operation under the write lock", p.ipos(a.Instr), "held: "+lockSetString(li.heldAt(a.Instr)),
 					"the registration state is written by a function other than Add/Remove")
 			default:
@@ -804,86 +811,122 @@ func ruleC11g(c *Ctx) {
 		}
 		name := p.fname(fn)
 		cyc := blocksOnCycles(fn)
-		// the keep-append: an append into the new list of the current element, inside the loop
-		var keep ssa.Instruction
+		var listFieldType types.Type
+		if nt := p.namedType(spec.owner); nt != nil {
+			if st, ok := nt.Underlying().(*types.Struct); ok {
+				for k := 0; k < st.NumFields(); k++ {
+					if st.Field(k).Name() == spec.field {
+						listFieldType = st.Field(k).Type()
+					}
+				}
+			}
+		}
+		// the keep-appends: appends (to a list of the scanned kind) inside a loop. A removal may be one scan or a scan
+		// followed by loops that copy what was kept; in every such loop an element is skipped only under the key equality.
+		var keeps []ssa.Instruction
 		eachInstr(fn, func(i ssa.Instruction) {
 			if isBuiltinCall(i, "append") && cyc[i.Block()] {
-				keep = i
+				// an append to a list of the kind that is scanned (not a log, a pattern list, ...)
+				if v, ok := i.(ssa.Value); ok && listFieldType != nil && !types.Identical(v.Type().Underlying(), listFieldType.Underlying()) {
+					return
+				}
+				keeps = append(keeps, i)
 			}
 		})
-		if keep == nil {
+		if len(keeps) == 0 {
 			c.bad(name, "kept entries are appended to the new list", p.pos(fn.Pos()), "no append inside the removal scan: every entry is dropped")
 			continue
 		}
-		// loop header of the scan
-		var header *ssa.BasicBlock
-		for b := keep.Block(); b != nil; b = b.Idom() {
-			if cyc[b] && reachableAfter(keep.Block(), nil)[b] {
-				if _, ok := b.Instrs[len(b.Instrs)-1].(*ssa.If); ok {
-					for _, s := range b.Succs {
-						if !reachableBlocks([]*ssa.BasicBlock{s}, nil)[b] {
-							header = b
+		totalSkip := 0
+		bad := ""
+		var at ssa.Instruction
+		undecided := false
+		for _, keep := range keeps {
+			// loop header of the scan
+			var header *ssa.BasicBlock
+			for b := keep.Block(); b != nil; b = b.Idom() {
+				if cyc[b] && reachableAfter(keep.Block(), nil)[b] {
+					if _, ok := b.Instrs[len(b.Instrs)-1].(*ssa.If); ok {
+						for _, s := range b.Succs {
+							if !reachableBlocks([]*ssa.BasicBlock{s}, nil)[b] {
+								header = b
+							}
 						}
 					}
 				}
+				if header != nil {
+					break
+				}
 			}
-			if header != nil {
-				break
-			}
-		}
-		if header == nil {
-			c.undecided(name, "removal scan", p.ipos(keep), "cannot find the loop of the scan")
-			continue
-		}
-		var bodyEntry *ssa.BasicBlock
-		for _, s := range header.Succs {
-			if reachableBlocks([]*ssa.BasicBlock{s}, nil)[header] {
-				bodyEntry = s
-			}
-		}
-		paths, ok := enumPathsBetween(fn, bodyEntry, header, 500)
-		if !ok || len(paths) == 0 {
-			c.undecided(name, "removal scan", p.ipos(keep), "cannot enumerate the paths of one iteration")
-			continue
-		}
-		nskip, bad := 0, ""
-		for _, pa := range paths {
-			if pa.has(keep.Block()) {
+			if header == nil {
+				c.undecided(name, "removal scan", p.ipos(keep), "cannot find the loop of the scan")
+				undecided = true
 				continue
 			}
-			nskip++
-			for _, k := range spec.keys {
-				found := false
-				for f := range pa.Facts {
-					bo, ok := f.Cond.(*ssa.BinOp)
-					if !ok || !f.Pol || bo.Op != token.EQL {
-						continue
-					}
-					_, f1, ok1 := fieldLoad(strip(bo.X))
-					_, f2, ok2 := fieldLoad(strip(bo.Y))
-					n1, n2 := "", ""
-					if ok1 {
-						n1 = f1.Name()
-					}
-					if ok2 {
-						n2 = f2.Name()
-					}
-					if call, ok := strip(bo.X).(*ssa.Call); ok && call.Call.StaticCallee() != nil {
-						n1 = call.Call.StaticCallee().Name()
-					}
-					if call, ok := strip(bo.Y).(*ssa.Call); ok && call.Call.StaticCallee() != nil {
-						n2 = call.Call.StaticCallee().Name()
-					}
-					if strings.EqualFold(n1, k) || strings.EqualFold(n2, k) {
-						found = true
+			var bodyEntry *ssa.BasicBlock
+			for _, s := range header.Succs {
+				if reachableBlocks([]*ssa.BasicBlock{s}, nil)[header] {
+					bodyEntry = s
+				}
+			}
+			paths, ok := enumPathsBetween(fn, bodyEntry, header, 500)
+			if !ok || len(paths) == 0 {
+				c.undecided(name, "removal scan", p.ipos(keep), "cannot enumerate the paths of one iteration")
+				undecided = true
+				continue
+			}
+			if at == nil {
+				at = keep
+			}
+			for _, pa := range paths {
+				// another keep-append of the same loop on this path keeps the element as well
+				kept := false
+				for _, k2 := range keeps {
+					if pa.has(k2.Block()) {
+						kept = true
 					}
 				}
-				if !found {
-					bad = "an entry can be dropped without its " + k + " being equal to the argument's"
+				if kept {
+					continue
+				}
+				totalSkip++
+				for _, k := range spec.keys {
+					found := false
+					for f := range pa.Facts {
+						bo, ok := f.Cond.(*ssa.BinOp)
+						if !ok || !f.Pol || bo.Op != token.EQL {
+							continue
+						}
+						_, f1, ok1 := fieldLoad(strip(bo.X))
+						_, f2, ok2 := fieldLoad(strip(bo.Y))
+						n1, n2 := "", ""
+						if ok1 {
+							n1 = f1.Name()
+						}
+						if ok2 {
+							n2 = f2.Name()
+						}
+						if call, ok := strip(bo.X).(*ssa.Call); ok && call.Call.StaticCallee() != nil {
+							n1 = call.Call.StaticCallee().Name()
+						}
+						if call, ok := strip(bo.Y).(*ssa.Call); ok && call.Call.StaticCallee() != nil {
+							n2 = call.Call.StaticCallee().Name()
+						}
+						if strings.EqualFold(n1, k) || strings.EqualFold(n2, k) {
+							found = true
+						}
+					}
+					if !found {
+						bad = "an entry can be dropped without its " + k + " being equal to the argument's"
+						at = keep
+					}
 				}
 			}
 		}
-		c.check(nskip > 0 && bad == "", name, "an entry is dropped only when its whole key matches", p.ipos(keep), "every dropping path carries equality on "+strings.Join(spec.keys, " and "),
+		if undecided && at == nil {
+			continue
+		}
+		c.check(totalSkip > 0 && bad == "", name, "an entry is dropped only when its whole key matches", p.ipos(at), "every dropping path carries equality on "+strings.Join(spec.keys, " and "),
 			bad+": entries nobody asked to remove disappear")
 	}
 }
